@@ -303,6 +303,70 @@ pub proof fn lemma_epayload_tail_none(pre: Seq<u8>, s: Seq<u8>, a: int)
     requires 0 <= a <= s.len(), forall|j: int| 0 <= j < s.skip(a).len() ==> s.skip(a)[j] != 0x0au8
     ensures epayload(pre, s.skip(a)) == Seq::<u8>::empty()
 { lemma_epayload_none(pre, s.skip(a)); }
+
+/// colouring of one line of an event-log / journal message that starts at byte `at` of the text: the datetime range is
+/// highlighted when it lies inside this line
+pub open spec fn eline_col(line: Seq<u8>, at: int, beg: int, end: int, c_sys: int, c_dt: int) -> Seq<(u8, int)> {
+    if at <= beg && end < at + line.len() { paint_hl(line, beg - at, end - at, c_sys, c_dt) } else { paint(line, c_sys) }
+}
+/// C13 colour (event-log / journal, prepended fields): per line, prefix in the default colour, then the line
+pub open spec fn ecolor(pre: Seq<u8>, s: Seq<u8>, at: int, beg: int, end: int, c_def: int, c_sys: int, c_dt: int) -> Seq<(u8, int)>
+    decreases s.len()
+{
+    if exists|i: int| first_at(s, 0x0au8, i) {
+        let b = choose|i: int| first_at(s, 0x0au8, i);
+        paint(pre, c_def) + eline_col(s.take(b + 1), at, beg, end, c_sys, c_dt) + ecolor(pre, s.skip(b + 1), at + b + 1, beg, end, c_def, c_sys, c_dt)
+    } else { Seq::<(u8, int)>::empty() }
+}
+pub proof fn lemma_ecolor_step(pre: Seq<u8>, s: Seq<u8>, at: int, beg: int, end: int, c_def: int, c_sys: int, c_dt: int, b: int)
+    requires first_at(s, 0x0au8, b)
+    ensures ecolor(pre, s, at, beg, end, c_def, c_sys, c_dt)
+        == paint(pre, c_def) + eline_col(s.take(b + 1), at, beg, end, c_sys, c_dt) + ecolor(pre, s.skip(b + 1), at + b + 1, beg, end, c_def, c_sys, c_dt)
+{
+    let c = choose|i: int| first_at(s, 0x0au8, i);
+    lemma_first_unique(s, 0x0au8, b, c);
+}
+pub proof fn lemma_ecolor_none(pre: Seq<u8>, s: Seq<u8>, at: int, beg: int, end: int, c_def: int, c_sys: int, c_dt: int)
+    requires forall|j: int| 0 <= j < s.len() ==> s[j] != 0x0au8
+    ensures ecolor(pre, s, at, beg, end, c_def, c_sys, c_dt) == Seq::<(u8, int)>::empty()
+{
+    if exists|i: int| first_at(s, 0x0au8, i) { let c = choose|i: int| first_at(s, 0x0au8, i); assert(s[c] == 0x0au8); }
+}
+/// colour is pure decoration: the bytes of the coloured payload are the payload of the non-colour variant
+pub proof fn lemma_ecolor_bytes(pre: Seq<u8>, s: Seq<u8>, at: int, beg: int, end: int, c_def: int, c_sys: int, c_dt: int)
+    ensures ecolor(pre, s, at, beg, end, c_def, c_sys, c_dt).len() == epayload(pre, s).len(),
+        forall|i: int| 0 <= i < epayload(pre, s).len() ==> (#[trigger] ecolor(pre, s, at, beg, end, c_def, c_sys, c_dt)[i]).0 == epayload(pre, s)[i],
+    decreases s.len()
+{
+    reveal(paint_hl);
+    if exists|i: int| first_at(s, 0x0au8, i) {
+        let b = choose|i: int| first_at(s, 0x0au8, i);
+        lemma_ecolor_bytes(pre, s.skip(b + 1), at + b + 1, beg, end, c_def, c_sys, c_dt);
+        let l = s.take(b + 1);
+        assert(eline_col(l, at, beg, end, c_sys, c_dt).len() == l.len());
+        assert(paint(pre, c_def).len() == pre.len());
+    }
+}
+
+/// one step of the line loop, all sequence algebra in one place
+pub proof fn lemma_eline_step(pre: Seq<u8>, data: Seq<u8>, a0: int, b: int, line: Seq<u8>, beg: int, end: int, c_def: int, c_sys: int, c_dt: int)
+    requires 0 <= a0 <= data.len(), first_at(data.subrange(a0, data.len() as int), 0x0au8, b), line == data.subrange(a0, a0 + b + 1)
+    ensures
+        epayload(pre, data.skip(a0)) == pre + line + epayload(pre, data.skip(a0 + b + 1)),
+        ecolor(pre, data.skip(a0), a0, beg, end, c_def, c_sys, c_dt)
+            == paint(pre, c_def) + eline_col(line, a0, beg, end, c_sys, c_dt) + ecolor(pre, data.skip(a0 + b + 1), a0 + b + 1, beg, end, c_def, c_sys, c_dt),
+{
+    let rest = data.skip(a0);
+    assert(data.subrange(a0, data.len() as int) =~= rest);
+    lemma_epayload_step(pre, rest, b);
+    lemma_ecolor_step(pre, rest, a0, beg, end, c_def, c_sys, c_dt, b);
+    assert(rest.take(b + 1) =~= line);
+    assert(rest.skip(b + 1) =~= data.skip(a0 + b + 1));
+}
+pub proof fn lemma_done_step<T>(done: Seq<T>, x: Seq<T>, nxt: Seq<T>, total: Seq<T>)
+    requires done + (x + nxt) == total
+    ensures (done + x) + nxt == total
+{ assert((done + x) + nxt =~= done + (x + nxt)); }
 pub proof fn lemma_exists_first(s: Seq<u8>, x: u8, k: int)
     requires 0 <= k < s.len(), s[k] == x
     ensures exists|i: int| first_at(s, x, i)
@@ -1969,6 +2033,119 @@ impl PrinterLogMessage {
         // C13: per line: file-name field, datetime field, line -- in that order, nothing else
         assert(stdout_lock.view() == total && printed == stdout_lock.view().len() && self.buffer@.len() == 0);
 //@end
+
+//@cut fn path=src/printer/printers.rs impl=PrinterLogMessage name=print_evtx_color ret=r
+//@spec
+    requires
+        old(self).buffer@.len() == 0,
+        old(self).col_ok(),
+        hl_ok(evtx.hl(), evtx.data().len() as int),
+    ensures
+        final(self).same_config(old(self)), final(self).same_colors(old(self)),
+        r is Ok ==> final(self).buffer@.len() == 0 && final(self).col_ok() && final(self).stdout_color.cur() == cid(old(self).color_spec_default),
+        // C13: colour is pure decoration -- the payload is the message's bytes, its datetime range highlighted
+        r is Ok ==> final(self).stdout_color.cview() == old(self).stdout_color.cview()
+            + paint_hl(evtx.data(), hl_b(evtx.hl()), hl_e(evtx.hl()), cid(old(self).color_spec_sysline), cid(old(self).color_spec_datetime)),
+        r is Ok ==> r->Ok_0.0 as int == evtx.data().len(),
+//@at_entry
+    let ghost cv0 = self.stdout_color.cview();
+    let ghost c_def = cid(self.color_spec_default);
+    let ghost c_sys = cid(self.color_spec_sysline);
+    let ghost c_dt = cid(self.color_spec_datetime);
+    let ghost rr = evtx.data();
+//@before "let stdout_lock = self.stdout.lock();"
+    let ghost hl = paint_hl(rr, beg as int, end as int, c_sys, c_dt);
+    proof {
+        lemma_streams_empty(&self.stdout_color, self.buffer@); lemma_paint_concat_auto();
+        lemma_hl_whole(cv0, Seq::<u8>::empty(), rr, beg as int, end as int, c_sys, c_dt);
+    }
+//@after "match buffer_flush_or_return__fn(" 1
+        proof {
+            lemma_streams_empty(&self.stdout_color, self.buffer@);
+            assert(data@.subrange(0, beg as int) =~= rr.subrange(0, beg as int));
+            lemma_hl_piece(cv0, Seq::<u8>::empty(), rr, 0, beg as int, c_sys, beg as int, end as int, c_sys, c_dt);
+            assert(self.stdout_color.cview() == cv0 + hl.take(beg as int));
+            assert(printed == beg as int);
+        }
+//@after "match buffer_flush_or_return__fn(" 2
+        proof {
+            lemma_streams_empty(&self.stdout_color, self.buffer@);
+            assert(data@.subrange(beg as int, end as int) =~= rr.subrange(beg as int, end as int));
+            lemma_hl_piece(cv0, Seq::<u8>::empty(), rr, beg as int, end as int, c_dt, beg as int, end as int, c_sys, c_dt);
+            assert(self.stdout_color.cview() == cv0 + hl.take(end as int));
+            assert(printed == end as int);
+        }
+//@after "match buffer_flush_or_return__fn(" 3
+        proof {
+            lemma_streams_empty(&self.stdout_color, self.buffer@);
+            assert(data@.subrange(end as int, data@.len() as int) =~= rr.subrange(end as int, rr.len() as int));
+            lemma_hl_piece(cv0, Seq::<u8>::empty(), rr, end as int, rr.len() as int, c_sys, beg as int, end as int, c_sys, c_dt);
+            assert(self.stdout_color.cview() == cv0 + hl.take(rr.len() as int));
+            assert(printed == rr.len() as int);
+        }
+//@before "black_box(&stdout_lock);"
+    proof {
+        lemma_streams_empty(&self.stdout_color, self.buffer@);
+        assert(self.stdout_color.cview() == cv0 + hl);
+    }
+//@end
+
+//@cut fn path=src/printer/printers.rs impl=PrinterLogMessage name=print_journalentry_color ret=r
+//@spec
+    requires
+        old(self).buffer@.len() == 0,
+        old(self).col_ok(),
+        hl_ok(journalentry.hl(), journalentry.data().len() as int),
+    ensures
+        final(self).same_config(old(self)), final(self).same_colors(old(self)),
+        r is Ok ==> final(self).buffer@.len() == 0 && final(self).col_ok() && final(self).stdout_color.cur() == cid(old(self).color_spec_default),
+        // C13: colour is pure decoration -- the payload is the message's bytes, its datetime range highlighted
+        r is Ok ==> final(self).stdout_color.cview() == old(self).stdout_color.cview()
+            + paint_hl(journalentry.data(), hl_b(journalentry.hl()), hl_e(journalentry.hl()), cid(old(self).color_spec_sysline), cid(old(self).color_spec_datetime)),
+        r is Ok ==> r->Ok_0.0 as int == journalentry.data().len(),
+//@at_entry
+    let ghost cv0 = self.stdout_color.cview();
+    let ghost c_def = cid(self.color_spec_default);
+    let ghost c_sys = cid(self.color_spec_sysline);
+    let ghost c_dt = cid(self.color_spec_datetime);
+    let ghost rr = journalentry.data();
+//@before "let stdout_lock = self.stdout.lock();"
+    let ghost hl = paint_hl(rr, beg as int, end as int, c_sys, c_dt);
+    proof {
+        lemma_streams_empty(&self.stdout_color, self.buffer@); lemma_paint_concat_auto();
+        lemma_hl_whole(cv0, Seq::<u8>::empty(), rr, beg as int, end as int, c_sys, c_dt);
+    }
+//@after "match buffer_flush_or_return__fn(" 1
+        proof {
+            lemma_streams_empty(&self.stdout_color, self.buffer@);
+            assert(data@.subrange(0, beg as int) =~= rr.subrange(0, beg as int));
+            lemma_hl_piece(cv0, Seq::<u8>::empty(), rr, 0, beg as int, c_sys, beg as int, end as int, c_sys, c_dt);
+            assert(self.stdout_color.cview() == cv0 + hl.take(beg as int));
+            assert(printed == beg as int);
+        }
+//@after "match buffer_flush_or_return__fn(" 2
+        proof {
+            lemma_streams_empty(&self.stdout_color, self.buffer@);
+            assert(data@.subrange(beg as int, end as int) =~= rr.subrange(beg as int, end as int));
+            lemma_hl_piece(cv0, Seq::<u8>::empty(), rr, beg as int, end as int, c_dt, beg as int, end as int, c_sys, c_dt);
+            assert(self.stdout_color.cview() == cv0 + hl.take(end as int));
+            assert(printed == end as int);
+        }
+//@after "match buffer_flush_or_return__fn(" 3
+        proof {
+            lemma_streams_empty(&self.stdout_color, self.buffer@);
+            assert(data@.subrange(end as int, data@.len() as int) =~= rr.subrange(end as int, rr.len() as int));
+            lemma_hl_piece(cv0, Seq::<u8>::empty(), rr, end as int, rr.len() as int, c_sys, beg as int, end as int, c_sys, c_dt);
+            assert(self.stdout_color.cview() == cv0 + hl.take(rr.len() as int));
+            assert(printed == rr.len() as int);
+        }
+//@before "black_box(&stdout_lock);"
+    proof {
+        lemma_streams_empty(&self.stdout_color, self.buffer@);
+        assert(self.stdout_color.cview() == cv0 + hl);
+    }
+//@end
+
 //PRNX-REGION
 //@endif
 }
